@@ -1021,3 +1021,106 @@ def _bounded_consume(ctx):
 def _bounded_consume_hash(ctx):
     # every failure here is an instance of the known finding "'#' stays a shlex comment character"
     _run_bounded(ctx, 'TokenStream.consume with #', 'a #\'\n', 5 if ctx.tier == 'thorough' else 4)
+
+
+# ------------------------------------------------------------------------------ lists: elements until end of line
+# ElementsUntilEndOfLineParser2 is generic in the element parser.  It is proved for an *abstract* element parser
+# that behaves as SymbolReferenceOrStringParser.parse is proved to behave above: it consumes exactly the head
+# token (or raises) -- and, recorded as an obligation at every call, it is only asked for an element when the
+# rest of the current line is not blank (so the token it consumes starts on the current line).  The abstract
+# image of an element is the source text of its token; `consumed` is the ghost list of those texts.
+
+from exactly_lib.impls.types.list_ import generic_parser  # noqa: E402
+from exactly_lib.impls.types.list_.generic_parser import ElementsUntilEndOfLineParser2  # noqa: E402
+from exactly_lib.section_document.element_parsers.token_stream_parser import ParserFromTokens  # noqa: E402
+from exactly_lib.util import either as _either  # noqa: E402
+from contracts.common import forall_range  # noqa: E402
+
+P_GP = 'exactly_lib.impls.types.list_.generic_parser'
+
+
+def blank(text):
+    return text == '' or text.isspace()
+
+
+class ElementI(Interface):
+    """result of the element parser: only its abstract image (the source text of the consumed token) is used"""
+    target_class = Either
+    attrs = {'image': Str}
+
+
+def _element_parse_model(interp, self, args, kwargs):
+    from pyvc.interp import PyRaise
+    from pyvc.api import new_opaque
+    tp = args[0]
+    ts = interp.getattr(tp, '_token_stream')
+    # obligation at the call site: there is something on the current line
+    rest = interp.call(current_line_rest, [interp.getattr(ts, '_source'), interp.getattr(ts, '_start_pos')], {})
+    ok = interp.not_(interp.call(blank, [rest], {}))
+    interp.st.oblige('%s : an element is parsed only when the rest of the current line is not blank'
+                     % interp.current_function_name(), interp.truth(ok), {'kind': 'callee-pre'})
+    head = interp.getattr(ts, '_head_token')
+    if interp.branch(interp.is_(head, None)):
+        raise PyRaise(SingleInstructionInvalidArgumentException('missing element'))
+    # obligation at the call site: the (unquoted) stop token `)` ends the list, it is not an element
+    interp.st.oblige('%s : the stop token is not parsed as an element' % interp.current_function_name(),
+                     interp.truth(interp.not_(interp.call(is_stop_token, [interp.resolve(head)], {}))),
+                     {'kind': 'callee-pre'})
+    if interp.st.choose(2) == 1:
+        raise PyRaise(SingleInstructionInvalidArgumentException('invalid element (e.g. a reserved word)'))
+    tok = interp.call(interp.getattr(ts, 'consume'), [], {})       # the assumed frame contract of consume
+    tok = interp.resolve(tok)
+    e = new_opaque(interp, ElementI, 'element', preset={'image': tok[2]})
+    interp.st.ghost['consumed'].append(interp, tok[2])
+    return e
+
+
+def is_stop_token(t):
+    return t[0] is TokenType.PLAIN and t[1] == ')'
+
+
+class ElementParserI(Interface):
+    target_class = ParserFromTokens
+    methods = {'parse': Method(model=_element_parse_model)}
+
+
+class ReducerI(Interface):
+    target_class = _either.Reducer
+    methods = {'reduce': Method(model=lambda interp, self, args, kwargs: interp.getattr(args[0], 'image'))}
+
+
+EUEOLP = Inst(ElementsUntilEndOfLineParser2, _element_parser=Iface(ElementParserI), _mk_element=Iface(ReducerI))
+
+
+def _setup_consumed(interp, args, ghosts):
+    from pyvc.mlist import MList
+    interp.st.ghost['consumed'] = MList(interp, interp.st.fresh_name('consumed'), ('str',))
+    return None
+
+
+def same_items(xs, ys):
+    return len(xs) == len(ys) and forall_range(0, len(xs), lambda k: xs[k] == ys[k])
+
+
+M.contract(P_GP + ':ElementsUntilEndOfLineParser2.parse', params=dict(self=EUEOLP, token_parser=TP),
+           setup=_setup_consumed,
+           old=lambda token_parser: _tp_state(token_parser),
+           modifies=_TS_FRAME,
+           raises={SingleInstructionInvalidArgumentException: {}},
+           returns=MListOf(Str),
+           ensures={
+               'one-element-per-consumed-token-in-order': lambda result, ghost: same_items(result, ghost['consumed']),
+               'source-unchanged': lambda token_parser, old: _hd_source(token_parser) == old[2],
+               'stops-at-the-line-break-or-before-the-stop-token': lambda token_parser:
+               current_line_rest(_hd_source(token_parser), _hd_pos(token_parser)) == ''
+               or (token_parser._token_stream._head_token is not None
+                   and token_parser._token_stream._head_token[0] is TokenType.PLAIN
+                   and token_parser._token_stream._head_token[1] == ')'),
+           },
+           raises_only=())
+M.loop(P_GP + ':ElementsUntilEndOfLineParser2.parse', 0,
+       invariant=lambda token_parser, ret_val, old, ghost:
+       same_items(ret_val, ghost['consumed']) and _hd_source(token_parser) == old[2]
+       and ts_inv(token_parser._token_stream),
+       modifies={**_TS_FRAME, 'ret_val': MListOf(Str), 'sym_name_or_element': 'local',
+                 'ghost:consumed': MListOf(Str)})
